@@ -39,6 +39,7 @@ func init() {
 }
 
 type openMeter struct {
+	sizes    map[string]int64 // segment file sizes after the recovering Open
 	alloc    uint64
 	segRead  int64
 	maxReq   int64
@@ -75,6 +76,12 @@ func measureOpen(kind core.FSKind, im crashfs.Image, cfg core.Config, keys [][]b
 		return m
 	}
 	defer db.Close()
+	m.sizes = map[string]int64{}
+	for n, sz := range env.List(env.Dir) {
+		if filepath.Ext(n) == ".psg" {
+			m.sizes[n] = sz
+		}
+	}
 	m.state, m.err = core.Dump(db, keys)
 	return m
 }
@@ -128,7 +135,7 @@ func runC19(c *core.Ctx) {
 		n = 80
 	}
 	hdrs = hdrs[:n]
-	want, _, err := expectedFromImage(tb.Image)
+	want, wantEnds, err := expectedFromImage(tb.Image)
 	if err != nil {
 		c.Violation("setup-error", err.Error(), nil)
 		return
@@ -200,6 +207,12 @@ func runC19(c *core.Ctx) {
 			if !m.state.Equal(want) {
 				fail("recovered-contents", "contents differ from the valid prefix: "+m.state.Diff(want, 3))
 				continue
+			}
+			// the tail must be discarded as in C08: every segment ends where its valid prefix ends
+			for n, end := range wantEnds {
+				if got, ok := m.sizes[n]; ok && got != end {
+					fail("segment-length", fmt.Sprintf("segment %s is %d bytes after recovery, its valid prefix ends at %d (the tail was not discarded)", n, got, end))
+				}
 			}
 			allowed := uint64(2*len(tail) + 32<<10)
 			if m.alloc > baseAllocMin[k] && m.alloc-baseAllocMin[k] > allowed {
